@@ -119,7 +119,7 @@ class Check:
         if self.violations:
             seen = set()
             for sig, what, path in self.violations:
-                if sig in seen:
+                if sig in seen or len(seen) >= 12:
                     continue
                 seen.add(sig)
                 print('VIOLATION property=%s replay=%s  (%s: %s)'
